@@ -318,7 +318,7 @@ def no_truncating_zip(ctx, rep, clause):
         for z in zips:
             args = [norm_stmt(a) for a in z.args]
             guarded = any(isinstance(x, ast.Compare) and 'len(' in norm_stmt(x) and isinstance(x.ops[0], (ast.NotEq, ast.Eq))
-                          and x.lineno <= z.lineno for x in walk_own(f.node))
+                          and x.order <= z.order for x in walk_own(f.node))
             if not guarded:
                 bad.append(z)
         ob(rep, 'SIB-hash', fq, 'no equality test walks two collections with a truncating zip()', not bad,
